@@ -52,6 +52,11 @@ NA = {
 
 # id -> (category, text, note, technique, design_ref)
 CLAIMED = {
+ "C26": ("exploration",
+         "A case fixes a multiset of 2..7 operations over three variables and acyclic terms of depth <= 2 (dif(S,T); S = T as binding, aliasing or structure unification; freeze(V, mark); when(Cond, mark) with nonvar/ground conditions joined by , and ;). The scheduler draws 5..8 orders of the multiset (seeded permutations plus constraints-first and bindings-first). Each order runs as one conjunction with a position mark after every operation, followed by 2..5 probes (further bindings tried inside \\+ \\+, their wake-ups carried out). Oracle: a reference constraint store (mgu with occurs check; a dif pair is violated when identical, entailed when not unifiable, pending otherwise; monotone freeze/when conditions). Per order: success/failure, final bindings, the segment of the log in which every suspended goal wakes (before the position mark of the enabling operation: 'as soon as') and that it wakes once, and outcome plus wake-ups of every probe (the remaining constraints, semantically); therefore all orders agree with each other. Marks are backtrackable, so wake-ups inside undone bindings (\\=, dif's unifiability test) leave no trace.",
+         "No fault is injected: the order of posts and bindings is the searched space (said plainly in DESIGN.md). Cases needing the occurs check are skipped; wake-ups of failing conjunctions/probes are not compared. Cases with a when/2 condition over >= 2 variables are keyed apart (recorded defect: such goals run once per variable).",
+         "deterministic simulation: seeded schedules (orders) of constraint posts and binding events over suspended goals; reference constraint store as oracle",
+         "DESIGN.md §3 C26"),
  "C12": ("exploration",
          "Goals are drawn from a control DSL (true, fail, marks, bindings of three variables, throw with atom / bc(Var) sharing a variable with catchers / error(_,_) / string / bignum balls, ten builtin errors, conjunction, disjunction, if-then-else, \\+, once, call, catch/3 with nine catcher shapes and DSL recovery goals, setup_call_cleanup/3 with marks as setup and cleanup), nesting depth <= 5. Each goal runs to completion inside findall/3 on the real machine and on a reference interpreter (innermost active catch whose catcher unifies with a copy of the ball; a catch is not active for its own continuation; bindings since the catch undone; recovery continues normally). Compared: solutions, uncaught ball (builtin errors: shape error(Formal, Context) and ISO kind of Formal), the order of ordinary marks, cleanup count == completed setup count per setup_call_cleanup, and that every assertz done alongside a mark is visible. Fault configuration (1 run in 2): the goal is run again with an interrupt injected at a seeded instruction (an exception at a point the program did not choose); then: no crash/hang, no cleanup twice, at most one cleanup lost, the goal re-run unfaulted gives exactly its first result, and a follow-up query gives the fresh-machine answer.",
          "Trusts the reference interpreter (0 disagreements on ~16 000 goals per quick run outside the one recorded defect). The instant at which a cleanup runs is not asserted, only its count once all choice points are gone. Cut is exercised through once/1, if-then-else and \\+ (no bare ! in the DSL).",
